@@ -16,7 +16,7 @@
                            success, context errors and ErrNotFound stop; without a policy one attempt
      result_ok tr r        r is the last attempt's Iter / its error once hosts ran out / "no connections" only
                            if nothing was sent / "unknown retry type" only after such an answer *)
-From GocqlV Require Import Lib.Base Gen.Consts C13.Model C13.Spec C13.Proofs1 C13.Proofs2 C13.Proofs3 C13.Proofs4 C13.Proofs5 C13.Proofs6.
+From GocqlV Require Import Lib.Base Gen.Consts C13.Model C13.Spec C13.Proofs1 C13.Proofs2 C13.Proofs3 C13.Proofs4 C13.Proofs5 C13.Proofs6 C13.Proofs7.
 
 (* The RetryType values in the source are the documented ones (a changed constant breaks this). *)
 Theorem C13_retry_type_constants :
@@ -138,9 +138,35 @@ Theorem C13_can_return : forall p idem k sh ls s,
   run_lts p (init idem k sh) ls = Some s ->
   (forall m, g_main s <> MRet m) ->
   (exists th, In th (g_th s) /\ is_done (r_pc (t_run th)) = true) ->
-  exists ls' s' m, (length ls' <= 2)%nat /\ run_lts p s ls' = Some s' /\ g_main s' = MRet m.
+  exists ls' s' m, (length ls' <= 2)%nat /\ run_lts p s ls' = Some s' /\ g_main s' = MRet m
+                   /\ Forall (fun l => l <> LCancel) ls'.
 Proof. exact can_return_lemma. Qed.
 Print Assumptions C13_can_return.
+
+(* Liveness, every schedule.  (1) With a threshold policy the whole system -- every execution, the ticker,
+   sends, drops, the main goroutine -- takes at most a fixed number of steps other than cancellations by
+   the application (which never disable anything), whatever the interleaving and the outcomes.
+   (2) As long as executeQuery has not returned some such step is possible; so a schedule that cannot be
+   extended has returned.  Together: every maximal schedule ends with the caller holding its one result;
+   no interleaving of executions, ticker, results channel and cancellation deadlocks or runs forever.
+   (Scheduler fairness is not needed for this; that an enabled step is eventually taken is Go's.) *)
+Theorem C13_schedules_bounded : forall n a0 p idem k hosts cons0 ls s,
+  (forall pol, p = Some pol -> threshold pol n) ->
+  run_lts p (init idem k (sh0 hosts a0 cons0)) ls = Some s ->
+  (steps ls <= runs_allowed idem k * (4 * length hosts + 4 * Z.to_nat (n + 1 - a0) + 3) + 1)%nat.
+Proof. exact schedules_bounded_lemma. Qed.
+Print Assumptions C13_schedules_bounded.
+
+Theorem C13_returns : forall p idem k sh ls s,
+  run_lts p (init idem k sh) ls = Some s ->
+  ((forall m, g_main s <> MRet m) -> exists l s', l <> LCancel /\ step p s l = Some s')
+  /\ ((forall l s', step p s l = Some s' -> l = LCancel) -> exists m, g_main s = MRet m).
+Proof.
+  intros p idem k sh ls s Hr. split.
+  - exact (progress_lemma p idem k sh ls s Hr).
+  - exact (returns_lemma p idem k sh ls s Hr).
+Qed.
+Print Assumptions C13_returns.
 
 (* A query not marked idempotent is never executed speculatively, whatever the speculative policy:
    one execution, the results channel is never used. *)
@@ -181,6 +207,17 @@ Theorem C13_downgrading_sequence : forall levels a0 cons0 fuel env hosts sh' r',
 Proof. exact downgrading_sequence_lemma. Qed.
 Print Assumptions C13_downgrading_sequence.
 
+(* ExponentialBackoffRetryPolicy's nap (getExponentialTime, attempts >= 1), whatever the random jitter does:
+   between nap_lo and nap_hi, never negative, never above max (10 s if unset), non-decreasing in the
+   attempt number, and exactly max once min*2^(attempts-1) exceeds max by more than half of min.
+   (The harness checks every observed nap of the real function against nap_lo/nap_hi.) *)
+Theorem C13_backoff_bounds : forall mn mx a, 1 <= a ->
+  0 <= nap_lo mn mx a <= nap_hi mn mx a /\ nap_hi mn mx a <= eff_max mx
+  /\ nap_lo mn mx a <= nap_lo mn mx (a + 1) /\ nap_hi mn mx a <= nap_hi mn mx (a + 1)
+  /\ (eff_max mx + (eff_min mn + 1) / 2 <= eff_min mn * 2 ^ (a - 1) -> nap_lo mn mx a = eff_max mx /\ nap_hi mn mx a = eff_max mx).
+Proof. exact backoff_bounds_lemma. Qed.
+Print Assumptions C13_backoff_bounds.
+
 (* ---- non-vacuity and tightness (tests by computation, not theorems) ------------------------------ *)
 Definition ex_hosts : list host :=
   [mkHost 1 true true true true; mkHost 2 true false true true; mkHost 3 true true true true; mkHost 4 true true true true].
@@ -208,6 +245,17 @@ Proof.
   split.
   - vm_compute. repeat split; intros; discriminate.
   - eexists. split; [vm_compute; reflexivity|]. vm_compute. auto.
+Qed.
+
+(* a state that cannot be extended (C13_returns, second part) exists and has returned *)
+Example stuck_state_has_returned :
+  exists s, run_lts (Some (simple_policy 2)) (init false 3 (sh0 ex_hosts 0 4))
+              [LRun 0 None true; LRun 0 None true; LSeqRet] = Some s
+            /\ g_main s = MRet (MIter (RIter 1 None))
+            /\ forall t o st, step (Some (simple_policy 2)) s (LRun t o st) = None.
+Proof.
+  eexists. split; [vm_compute; reflexivity|]. split; [reflexivity|].
+  intros [|[|t]] o st; reflexivity.
 Qed.
 
 (* the hypothesis of C13_non_idempotent_not_retried holds on runs that do send the query *)
